@@ -5,6 +5,9 @@ import numpy
 from hypothesis import strategies as st
 
 from pbt.harness import Sub, Violation, Skip, require, sut
+
+import numba  # noqa: E402
+numba.set_num_threads(1)
 from pbt.ref import fimo_ref as R
 
 from tangermeme.tools import fimo as F
@@ -105,6 +108,69 @@ def strategy(maxw, fine_maxw):
     return f()
 
 
+def fimo_pvalue_case(case, ctx):
+    """The second observation point of C11: the p-value column of fimo().  Every sequence of the motif's length is scanned (they
+    are all reported with a threshold above 1) and each reported p-value must be the exact tail of its discretised score - also
+    when an earlier scan in the same process used the same motif with another pseudocount or bin size."""
+    import itertools
+    import torch
+    pwm = _pwm(case)
+    w = pwm.shape[1]
+    bin_size, eps = case["bin_size"], case["eps"]
+    seqs = ["".join(t) for t in itertools.product("ACGT", repeat=w)]
+    X = torch.zeros((len(seqs), 4, w), dtype=torch.float64)
+    for i, s_ in enumerate(seqs):
+        for j, ch in enumerate(s_):
+            X[i, "ACGT".index(ch), j] = 1
+    motifs = {"m": torch.tensor(pwm)}
+    if case.get("pre"):
+        try:
+            F.fimo(motifs, X, bin_size=case["pre"][0], eps=case["pre"][1], threshold=2.0, reverse_complement=False)
+        except Exception:  # noqa: BLE001
+            pass
+        ctx.label("after_scan_with_other_settings")
+    hits = sut(F.fimo, motifs, X, bin_size=bin_size, eps=eps, threshold=2.0, reverse_complement=False)[0]
+    lp = R.log_pwm(pwm, eps)
+    ip, tie = R.int_scores(lp, bin_size)
+    if tie:
+        raise Skip()
+    lo, counts = R.exact_counts(ip)
+    tail = numpy.cumsum(counts[::-1])[::-1]
+    total = 4.0 ** w
+    n_checked = 0
+    for row in hits.itertuples(index=False):
+        si, score, p = int(row[2]), float(row[6]), float(row[7])
+        q = score / bin_size
+        if abs(q - round(q)) < 1e-9:
+            continue
+        ok = False
+        for b in {int(numpy.trunc(q)), int(numpy.floor(q))}:
+            k = b - lo
+            want = 1.0 if k <= 0 else (0.0 if k >= len(tail) else tail[k] / total)
+            if abs(p - want) <= 1e-9 * max(want, 1e-300) + 1e-15:
+                ok = True
+        if not ok:
+            k = int(numpy.trunc(q)) - lo
+            raise Violation("fimo-pvalue-column", "w=%d bin=%g eps=%g cols=%s: sequence %s score %.6g reported p=%.9g, exact tail of its bin %.9g" % (
+                w, bin_size, eps, case["cols"], seqs[si], score, p, 1.0 if k <= 0 else (0.0 if k >= len(tail) else tail[k] / total)))
+        n_checked += 1
+    ctx.extra["inner"] = n_checked
+    ctx.nt(n_checked >= 2 and len(set(ip.flatten().tolist())) >= 2)
+
+
+@st.composite
+def fimo_strategy(draw):
+    w = draw(st.integers(1, 5))
+    cols = []
+    for _ in range(w):
+        cols.append(draw(column(draw(st.sampled_from(["uniform", "onehot", "coarse", "zeros", "fine", "fine"])))))
+    case = {"cols": cols, "bin_size": draw(st.sampled_from([1.0, 0.5, 0.1, 0.1, 0.05])), "eps": draw(st.sampled_from([1e-4, 1e-4, 1e-3, 0.01, 0.1]))}
+    if draw(st.booleans()):
+        case["pre"] = [draw(st.sampled_from([case["bin_size"], case["bin_size"], 0.25])), draw(st.sampled_from([1e-4, 1e-3, 0.01, 0.1, 0.05]))]
+    return case
+
+
 def subchecks(tier):
     return [Sub("pvalue_table", table_case, strategy=lambda: strategy(30, 12) if tier == "quick" else strategy(30, 30),
-                n_quick=800, n_thorough=30000, shards_quick=4)]
+                n_quick=800, n_thorough=30000, shards_quick=4),
+            Sub("fimo_pvalue_column", fimo_pvalue_case, strategy=fimo_strategy, n_quick=300, n_thorough=6000, shards_quick=2)]
